@@ -336,3 +336,54 @@ package chain
 //@   ensures err == nil ==> !isnil(result0.StatelessBlock)
 //@   ensures err == nil ==> result0.StatelessBlock.Hght == 0
 //@   ensures err == nil ==> result0.StatelessBlock.StateRoot == fst(merkledb.View.GetMerkleRoot(result1))
+
+// ---- C15: one canonical encoding -- what a Transaction caches is a function of its bytes ----
+//@ func (*SerializeTx).UnmarshalCanotoFrom
+//@   trusted
+//@   noframe
+//@   modifies *c
+//@ func (*SerializeTx).MarshalCanoto
+//@   trusted
+//@   noframe
+//@ func (*Base).CalculateCanotoCache
+//@   trusted
+//@   noframe
+//@   modifies c.canotoData
+//@ func Parser.ParseAction
+//@   noframe
+//@ func Parser.ParseAuth
+//@   noframe
+//@ func AuthFactory.Sign
+//@   pure
+//@ func Auth.Verify
+//@   pure
+//@   opt ignore #0
+//@ func Auth.Bytes
+//@   pure
+
+// A parsed transaction (C15) keeps exactly the bytes it was parsed from: its cached bytes are the
+// input, its size their length, its id their hash, and the bytes that were signed are the input
+// minus the trailing auth field (tag + length varint + auth bytes) -- never out of bounds.
+//@ func (*Transaction).UnmarshalCanotoFrom props C15
+//@   noframe
+//@   loop 1 invariant 0 <= idx1 && idx1 <= len(serializeTx.Actions) && len(actions) == len(serializeTx.Actions)
+//@   ensures err == nil ==> len(t.bytes) == len(r.B) && t.size == len(r.B) && (forall j int :: 0 <= j && j < len(r.B) ==> t.bytes[j] == r.B[j])
+//@   ensures err == nil ==> str(t.id) == str(utils.ToID(r.B))
+//@   ensures err == nil ==> len(t.TransactionData.unsignedBytes) <= len(r.B) && (forall j int :: 0 <= j && j < len(t.TransactionData.unsignedBytes) ==> t.TransactionData.unsignedBytes[j] == r.B[j])
+//@   at call 9 assert len(serializeTx.Auth) == 0 ==> len(unsignedTxBytes) == len(r.B)
+//@   at call 9 assert len(serializeTx.Auth) != 0 ==> len(unsignedTxBytes) == len(r.B) - (1 + varintLen(len(serializeTx.Auth)) + len(serializeTx.Auth))
+
+// what is verified is exactly what was signed: the unsigned bytes
+//@ func (*Transaction).VerifyAuth props C15
+//@   ensures (result == nil) == (Auth.Verify(t.Auth, t.TransactionData.unsignedBytes) == nil)
+// a constructed transaction caches size and id of exactly the bytes it serialises to
+//@ func NewTransaction props C15
+//@   noframe
+//@   loop 1 invariant 0 <= idx1 && idx1 <= len(actions) && len(actionBytes) == len(actions)
+//@   ensures err == nil ==> !isnil(result0) && result0.size == len(result0.bytes) && str(result0.id) == str(utils.ToID(result0.bytes))
+//@ func NewTxData
+//@   trusted
+//@   noframe
+//@ func (*TransactionData).Sign props C15
+//@   noframe
+//@   at call 1 assert err == nil ==> auth == fst(AuthFactory.Sign(factory, t.unsignedBytes))
